@@ -25,7 +25,7 @@ def shapeOf (j : Json) : P Shape := do
   | _ => pure (.prim (← primOf j))
 
 def laneletOf (j : Json) : P Lanelet := do
-  pure { id := ← getInt j "id", poly := { addr := ← getNat j "addr", ring := ← getList ptOf j "ring" } }
+  pure { id := ← getInt j "id", addr := ← getNat j "addr", left := ← getList ptOf j "left", right := ← getList ptOf j "right" }
 
 def opOf (j : Json) : P Op := do
   match ← getStr j "op" with
@@ -91,9 +91,13 @@ def handle (op : String) (a : Json) : P Json := do
     match run n0 ops with
     | .error e => pure (errJ e)
     | .ok n =>
-      let pos := resJ (fun (r : List (List Int)) => Json.arr (r.map intsJ).toArray) (findByPosition (withinTol tol) n pts)
-      let sh := Json.arr (shapes.map (fun s => resJ intsJ (findByShape ringMeets n s))).toArray
+      let pos := resJ (fun (r : List (List Int)) => Json.arr (r.map intsJ).toArray) (findByPosition (treeWithin tol) n pts)
+      let sh := Json.arr (shapes.map (fun s => resJ intsJ (findByShape treeMeets n s))).toArray
       pure <| okJ <| Json.mkObj [("ids", intsJ (n.lanelets.map (·.id))), ("pos", pos), ("shape", sh)]
+  | "contains_points" =>
+    let l ← laneletOf (← field a "lanelet")
+    let pts ← getList ptOf a "pts"
+    pure <| resJ boolsJ (l.containsPoints pts)
   | "obstacles" =>
     let ls ← getList laneletOf a "lanelets"
     let obs ← getList (fun j => do pure ({ id := ← getInt j "id", shape := ← shapeOf (← field j "shape") } : Obst)) a "obs"
